@@ -77,10 +77,15 @@ def classify(prop, ens_names, enforce):
         return 'overflow', name
     return 'other', name
 
+def RUN_DIR(prop_id, keep):
+    """scratch directory of this run: private to the process, so concurrent runs of the same property (quick and
+    thorough, or a seeded-change trial) cannot clobber each other; --keep uses the stable name"""
+    return prop_id if keep else '%s.%d' % (prop_id, os.getpid())
+
 def run_harness(meta, prop_id, keep=False):
     """returns a result dict"""
     name = meta['name']
-    wd = os.path.join(WORK, prop_id, name + ('.case%d' % meta['_case'] if meta.get('_case') is not None else ''))
+    wd = os.path.join(WORK, RUN_DIR(prop_id, keep), name + ('.case%d' % meta['_case'] if meta.get('_case') is not None else ''))
     shutil.rmtree(wd, ignore_errors=True)
     os.makedirs(wd)
     res = dict(harness=name, status='error', obligations=0, discharged=0, failed=[], named_ok=[], notes=[],
@@ -524,7 +529,7 @@ def main():
     if not args.no_evidence and not args.only:
         write_evidence(prop, args.tier, seed, results, metas_by, violations, undecided, known_hits, time.time() - t0)
     if not args.keep:
-        shutil.rmtree(os.path.join(WORK, prop), ignore_errors=True)
+        shutil.rmtree(os.path.join(WORK, RUN_DIR(prop, False)), ignore_errors=True)
     print('%s: %s  (%d harnesses, %.1fs)' % (prop, {0: 'PASS', 1: 'VIOLATION', 2: 'UNDECIDED'}[exit_code], len(results), time.time() - t0))
     sys.exit(exit_code)
 
